@@ -209,9 +209,11 @@ def tolerance_job(args):
     L1 = float(np.linalg.norm(np.array(J) - np.array(A)))
     msl = L1 / n1
     chain = case.startswith('chain-')
+    moved = case.startswith('moved-')          # the second wire is entered one metre away and put in place by translate() before the model is built
     Cpt = (3.1, 0.2, 4.4)
     n3 = 2
-    bound = {'near': 3e-4, 'far': 3e-3}[case.replace('chain-', '')]
+    bound = {'near': 3e-4, 'far': 3e-3}[case.replace('chain-', '').replace('moved-', '')]
+    off = 1.0 if moved else 0.0
 
     def fn():
         c = symx.ctx()
@@ -220,7 +222,9 @@ def tolerance_job(args):
             c.assume(z3.And(x.n >= core.RV(-bound), x.n <= core.RV(bound)))
         with symx.object_arrays():
             w1 = M.Wire(n1, *A, *J, 0.002)
-            w2 = M.Wire(n2, J[0] + d[0], J[1] + d[1], J[2] + d[2], *B, 0.002)
+            w2 = M.Wire(n2, J[0] + d[0] + off, J[1] + d[1] + off, J[2] + d[2] + off, B[0] + off, B[1] + off, B[2] + off, 0.002)
+            if moved:
+                w2.translate(np.array([-off, -off, -off]))
             geo = [w1, w2]
             if chain:
                 # a third wire that starts EXACTLY where the second ends: it must be joined whether or not the first joint is a fuzzy one
@@ -303,9 +307,22 @@ def tolerance_job(args):
         else:
             dc = [float(core.model_value(s.model(), x)) for x in d]
             pts = [A, J, tuple(J[i] + dc[i] for i in range(3)), B] + ([B, Cpt] if chain else [])
-            v = replay_count(mm, 3 if chain else 2, (n1, n2, n3) if chain else (n1, n2), False, pts)
+            if moved:
+                # the same construction on the real package: entered one metre away, moved into place, then matched
+                w1r = mm.Wire(n1, *A, *J, 0.002)
+                w2r = mm.Wire(n2, J[0] + dc[0] + off, J[1] + dc[1] + off, J[2] + dc[2] + off, B[0] + off, B[1] + off, B[2] + off, 0.002)
+                w2r.translate(np.array([-off, -off, -off]))
+                mr = mm.Mininec(29.98, [w1r, w2r])
+                gap = float(np.linalg.norm(np.asarray(w2r.p1, dtype=float) - np.asarray(J)))
+                want = (n1 - 1) + (n2 - 1) + (1 if gap <= 1e-3 * msl else 0)
+                v = None
+                if abs(gap - 1e-3 * msl) > 1e-9 and len(mr.pulses) != want:
+                    v = ('C12:tolerance:moved', 'a wire moved into place by translate(): its end is %.3g m from the end of the other wire (tolerance %.3g m), the model has %d pulses, the topology formula gives %d'
+                         % (gap, 1e-3 * msl, len(mr.pulses), want), dict(kind='tolerance-moved', delta=dc))
+            else:
+                v = replay_count(mm, 3 if chain else 2, (n1, n2, n3) if chain else (n1, n2), False, pts)
             if v:
-                v = ('C12:tolerance', v[1], v[2])
+                v = ('C12:tolerance' + (':moved' if moved else ''), v[1], v[2])
                 res['violations'].append(v)
                 res['obls'].append((on, 'violation', v[1]))
             else:
@@ -411,7 +428,7 @@ def main(args):
     if ck.tier == 'thorough':
         for fixed in range(16):
             jobs.append((4, (1, 2, 1, 1), False, qt, fixed))
-    tjobs = [('near', qt), ('far', qt), ('chain-near', qt), ('chain-far', qt)]
+    tjobs = [('near', qt), ('far', qt), ('chain-near', qt), ('chain-far', qt), ('moved-near', qt), ('moved-far', qt)]
     # every job has a share of one hard wall budget: a job that is still running at the deadline is killed and counted as ONE inconclusive
     # obligation, never as a pass (a change to the code can turn the linear queries of a job into nonlinear ones that do not finish)
     budget = 480 if ck.tier == 'quick' else 7200
